@@ -4260,6 +4260,15 @@ rfbProcessUDPInput(rfbScreenInfoPtr rfbScreen)
 	return;
     }
 
+    /* The UDP channel has no handshake, so its peer cannot prove the password:
+       on a screen that requires authentication its input must not reach the
+       application (the datagram has been read, it is simply dropped). */
+    if (rfbScreen->authPasswdData) {
+	rfbErr("rfbProcessUDPInput: the screen requires authentication, UDP input ignored\n");
+	rfbDisconnectUDPSock(rfbScreen);
+	return;
+    }
+
     switch (msg.type) {
 
     case rfbKeyEvent:
